@@ -1,23 +1,842 @@
 package main
 
+// Model of package reflect over go/types. This is a model, not reflect's source; it is validated
+// differentially against the native build by witness replay in every check that uses it.
+
 import (
+	"fmt"
 	"go/types"
+	"strings"
 
 	"golang.org/x/tools/go/ssa"
 )
 
 type reflType struct{ t types.Type }
 
+type reflVal struct {
+	t      types.Type // nil: the zero (invalid) Value
+	addr   *value     // slot holding the value when addressable
+	v      value      // the value when not addressable
+	canSet bool
+}
+
+func (r reflVal) get() value {
+	if r.addr != nil {
+		return load(r.addr)
+	}
+	return r.v
+}
+
+func (m *Machine) rtypeIface(t types.Type) value {
+	if t == nil {
+		return ifaceV{}
+	}
+	rp := m.prog.ImportedPackage("reflect")
+	if rp == nil {
+		m.abort("reflect not loaded")
+	}
+	return ifaceV{t: types.NewPointer(rp.Type("rtype").Object().Type()), v: reflType{t}}
+}
+
+func reflKind(t types.Type) uint64 {
+	switch u := t.Underlying().(type) {
+	case *types.Basic:
+		switch u.Kind() {
+		case types.Bool, types.UntypedBool:
+			return 1
+		case types.Int, types.UntypedInt:
+			return 2
+		case types.Int8:
+			return 3
+		case types.Int16:
+			return 4
+		case types.Int32, types.UntypedRune:
+			return 5
+		case types.Int64:
+			return 6
+		case types.Uint:
+			return 7
+		case types.Uint8:
+			return 8
+		case types.Uint16:
+			return 9
+		case types.Uint32:
+			return 10
+		case types.Uint64:
+			return 11
+		case types.Uintptr:
+			return 12
+		case types.Float32:
+			return 13
+		case types.Float64, types.UntypedFloat:
+			return 14
+		case types.Complex64:
+			return 15
+		case types.Complex128:
+			return 16
+		case types.String, types.UntypedString:
+			return 24
+		case types.UnsafePointer:
+			return 26
+		}
+	case *types.Array:
+		return 17
+	case *types.Chan:
+		return 18
+	case *types.Signature:
+		return 19
+	case *types.Interface:
+		return 20
+	case *types.Map:
+		return 21
+	case *types.Pointer:
+		return 22
+	case *types.Slice:
+		return 23
+	case *types.Struct:
+		return 25
+	}
+	return 0
+}
+
+func isReflValueType(t types.Type) bool {
+	n, ok := t.(*types.Named)
+	return ok && n.Obj().Name() == "Value" && n.Obj().Pkg() != nil && n.Obj().Pkg().Path() == "reflect"
+}
+
+func (m *Machine) asReflVal(v value) reflVal {
+	switch v := v.(type) {
+	case reflVal:
+		return v
+	case structV:
+		return reflVal{}
+	}
+	m.abort("expected reflect.Value, got %T", v)
+	return reflVal{}
+}
+
+func (m *Machine) asReflType(v value) types.Type {
+	iv, ok := v.(ifaceV)
+	if !ok {
+		m.abort("expected reflect.Type, got %T", v)
+	}
+	if iv.t == nil {
+		m.targetPanic("reflect: nil Type")
+	}
+	rt, ok := iv.v.(reflType)
+	if !ok {
+		m.abort("expected reflect.Type model, got %T", iv.v)
+	}
+	return rt.t
+}
+
+func (m *Machine) reflPanic(msg string) {
+	m.targetPanic("reflect: " + msg)
+}
+
+type reflFn func(m *Machine, c *frame, a []value) value
+
+var reflFuncs map[string]reflFn
+
 func reflectModel(name string) externalFn {
+	if f, ok := reflFuncs[name]; ok {
+		return func(m *Machine, caller *frame, fn *ssa.Function, args []value) value {
+			return f(m, caller, args)
+		}
+	}
 	return func(m *Machine, caller *frame, fn *ssa.Function, args []value) value {
-		m.abort("reflect model: %s not implemented", name)
-		return nil
+		m.opaqueCalls[name]++
+		return m.opaqueResult(fn.Signature.Results(), name)
 	}
 }
 
+func kindIs(k uint64, ks ...uint64) bool {
+	for _, x := range ks {
+		if k == x {
+			return true
+		}
+	}
+	return false
+}
+
+func intTerm(v int) *Term { return mkConst(64, uint64(int64(v))) }
+
+func exported(name string) bool { return name != "" && name[0] >= 'A' && name[0] <= 'Z' }
+
+func init() {
+	reflFuncs = map[string]reflFn{
+		"reflect.TypeOf": func(m *Machine, c *frame, a []value) value {
+			iv, ok := a[0].(ifaceV)
+			if !ok {
+				if o, ok := a[0].(opaqueV); ok {
+					return opaqueV{src: "reflect.TypeOf(" + o.src + ")"}
+				}
+				m.abort("reflect.TypeOf(%T)", a[0])
+			}
+			return m.rtypeIface(iv.t)
+		},
+		"reflect.ValueOf": func(m *Machine, c *frame, a []value) value {
+			iv, ok := a[0].(ifaceV)
+			if !ok {
+				m.abort("reflect.ValueOf(%T)", a[0])
+			}
+			if iv.t == nil {
+				return reflVal{}
+			}
+			if rv, ok := iv.v.(reflVal); ok && isReflValueType(iv.t) {
+				// ValueOf(reflect.Value) — a Value holding a Value; conversion.EncodeInto does this
+				return reflVal{t: iv.t, v: rv}
+			}
+			return reflVal{t: iv.t, v: iv.v}
+		},
+		"reflect.New": func(m *Machine, c *frame, a []value) value {
+			t := m.asReflType(a[0])
+			cell := new(value)
+			*cell = zero(t)
+			return reflVal{t: types.NewPointer(t), v: cell}
+		},
+		"reflect.Zero": func(m *Machine, c *frame, a []value) value {
+			t := m.asReflType(a[0])
+			return reflVal{t: t, v: zero(t)}
+		},
+		"reflect.Indirect": func(m *Machine, c *frame, a []value) value {
+			rv := m.asReflVal(a[0])
+			if rv.t != nil && reflKind(rv.t) == 22 {
+				return reflElem(m, rv)
+			}
+			return rv
+		},
+		"reflect.MakeSlice": func(m *Machine, c *frame, a []value) value {
+			t := m.asReflType(a[0])
+			st, ok := t.Underlying().(*types.Slice)
+			if !ok {
+				m.reflPanic("MakeSlice of non-slice type")
+			}
+			s := m.makeSlice(st.Elem(), m.asTerm(a[1]), m.asTerm(a[2]), "reflect.MakeSlice")
+			return reflVal{t: t, v: s}
+		},
+		"reflect.MakeMapWithSize": func(m *Machine, c *frame, a []value) value {
+			t := m.asReflType(a[0])
+			mt, ok := t.Underlying().(*types.Map)
+			if !ok {
+				m.reflPanic("MakeMapWithSize of non-map type")
+			}
+			n := m.asTerm(a[1])
+			if !n.IsConst() {
+				if m.branch(tCmp("bvslt", n, mkConst(64, 0))) {
+					m.reflPanic("MakeMapWithSize: negative size hint")
+				}
+				m.allocObligation(n, 48, "reflect.MakeMapWithSize")
+			}
+			return reflVal{t: t, v: &mapV{keyT: mt.Key(), elT: mt.Elem()}}
+		},
+		"reflect.MakeMap": func(m *Machine, c *frame, a []value) value {
+			t := m.asReflType(a[0])
+			mt := t.Underlying().(*types.Map)
+			return reflVal{t: t, v: &mapV{keyT: mt.Key(), elT: mt.Elem()}}
+		},
+		"reflect.SliceOf": func(m *Machine, c *frame, a []value) value {
+			return m.rtypeIface(types.NewSlice(m.asReflType(a[0])))
+		},
+		"reflect.MapOf": func(m *Machine, c *frame, a []value) value {
+			return m.rtypeIface(types.NewMap(m.asReflType(a[0]), m.asReflType(a[1])))
+		},
+		"reflect.PtrTo": func(m *Machine, c *frame, a []value) value {
+			return m.rtypeIface(types.NewPointer(m.asReflType(a[0])))
+		},
+		"reflect.PointerTo": func(m *Machine, c *frame, a []value) value {
+			return m.rtypeIface(types.NewPointer(m.asReflType(a[0])))
+		},
+		"reflect.StructOf": func(m *Machine, c *frame, a []value) value {
+			fs, _ := a[0].([]value)
+			var vars []*types.Var
+			for _, f := range fs {
+				sf := f.(structV)
+				name, _ := sf[0].(strV).Concrete()
+				ft := m.asReflType(sf[2])
+				vars = append(vars, types.NewField(0, nil, name, ft, false))
+			}
+			return m.rtypeIface(types.NewStruct(vars, nil))
+		},
+		"reflect.DeepEqual": func(m *Machine, c *frame, a []value) value {
+			x, y := a[0], a[1]
+			if _, ok := x.(opaqueV); ok {
+				return opaqueV{t: types.Typ[types.Bool], src: "reflect.DeepEqual on opaque"}
+			}
+			if _, ok := y.(opaqueV); ok {
+				return opaqueV{t: types.Typ[types.Bool], src: "reflect.DeepEqual on opaque"}
+			}
+			return m.deepEqual(x, y)
+		},
+
+		// ---- Value methods ----
+		"(reflect.Value).Kind": func(m *Machine, c *frame, a []value) value {
+			rv := m.asReflVal(a[0])
+			if rv.t == nil {
+				return mkConst(64, 0)
+			}
+			return mkConst(64, reflKind(rv.t))
+		},
+		"(reflect.Value).IsValid": func(m *Machine, c *frame, a []value) value {
+			return mkBool(m.asReflVal(a[0]).t != nil)
+		},
+		"(reflect.Value).Type": func(m *Machine, c *frame, a []value) value {
+			rv := m.asReflVal(a[0])
+			if rv.t == nil {
+				m.reflPanic("call of reflect.Value.Type on zero Value")
+			}
+			return m.rtypeIface(rv.t)
+		},
+		"(reflect.Value).CanSet":  func(m *Machine, c *frame, a []value) value { return mkBool(m.asReflVal(a[0]).canSet) },
+		"(reflect.Value).CanAddr": func(m *Machine, c *frame, a []value) value { return mkBool(m.asReflVal(a[0]).addr != nil) },
+		"(reflect.Value).CanInterface": func(m *Machine, c *frame, a []value) value { return tTrue },
+		"(reflect.Value).Addr": func(m *Machine, c *frame, a []value) value {
+			rv := m.asReflVal(a[0])
+			if rv.addr == nil {
+				m.reflPanic("reflect.Value.Addr of unaddressable value")
+			}
+			return reflVal{t: types.NewPointer(rv.t), v: rv.addr}
+		},
+		"(reflect.Value).Elem": func(m *Machine, c *frame, a []value) value {
+			return reflElem(m, m.asReflVal(a[0]))
+		},
+		"(reflect.Value).Interface": func(m *Machine, c *frame, a []value) value {
+			rv := m.asReflVal(a[0])
+			if rv.t == nil {
+				m.reflPanic("call of reflect.Value.Interface on zero Value")
+			}
+			v := rv.get()
+			if _, isI := rv.t.Underlying().(*types.Interface); isI {
+				return v
+			}
+			return ifaceV{t: rv.t, v: copyVal(v)}
+		},
+		"(reflect.Value).IsNil": func(m *Machine, c *frame, a []value) value {
+			rv := m.asReflVal(a[0])
+			if rv.t == nil {
+				m.reflPanic("call of reflect.Value.IsNil on zero Value")
+			}
+			switch v := rv.get().(type) {
+			case *value:
+				return mkBool(v == nil)
+			case []value:
+				return mkBool(v == nil)
+			case *mapV:
+				return mkBool(v == nil)
+			case *chanV:
+				return mkBool(v == nil)
+			case ifaceV:
+				return mkBool(v.t == nil)
+			case *ssa.Function:
+				return mkBool(v == nil)
+			case *closure:
+				return mkBool(v == nil)
+			}
+			m.reflPanic("call of reflect.Value.IsNil on " + rv.t.String() + " Value")
+			return nil
+		},
+		"(reflect.Value).IsZero": func(m *Machine, c *frame, a []value) value {
+			rv := m.asReflVal(a[0])
+			return m.equalsT(rv.t, rv.get(), zero(rv.t))
+		},
+		"(reflect.Value).Bool": func(m *Machine, c *frame, a []value) value {
+			rv := m.asReflVal(a[0])
+			m.wantKind(rv, "Bool", 1)
+			return rv.get()
+		},
+		"(reflect.Value).Int": func(m *Machine, c *frame, a []value) value {
+			rv := m.asReflVal(a[0])
+			m.wantKind(rv, "Int", 2, 3, 4, 5, 6)
+			return tSext(rv.get().(*Term), 64)
+		},
+		"(reflect.Value).Uint": func(m *Machine, c *frame, a []value) value {
+			rv := m.asReflVal(a[0])
+			m.wantKind(rv, "Uint", 7, 8, 9, 10, 11, 12)
+			return tZext(rv.get().(*Term), 64)
+		},
+		"(reflect.Value).Float": func(m *Machine, c *frame, a []value) value {
+			rv := m.asReflVal(a[0])
+			m.wantKind(rv, "Float", 13, 14)
+			t := rv.get().(*Term)
+			if t.W == 32 {
+				return tF32toF64(t)
+			}
+			return t
+		},
+		"(reflect.Value).String": func(m *Machine, c *frame, a []value) value {
+			rv := m.asReflVal(a[0])
+			if rv.t == nil {
+				return mkStr("<invalid Value>")
+			}
+			if reflKind(rv.t) == 24 {
+				return rv.get()
+			}
+			return mkStr("<" + rv.t.String() + " Value>")
+		},
+		"(reflect.Value).SetBool": func(m *Machine, c *frame, a []value) value {
+			rv := m.settable(a[0], "SetBool", 1)
+			store(rv.addr, a[1])
+			return nil
+		},
+		"(reflect.Value).SetInt": func(m *Machine, c *frame, a []value) value {
+			rv := m.settable(a[0], "SetInt", 2, 3, 4, 5, 6)
+			w := basicWidth(rv.t.Underlying().(*types.Basic))
+			store(rv.addr, tExtract(w-1, 0, m.asTerm(a[1])))
+			return nil
+		},
+		"(reflect.Value).SetUint": func(m *Machine, c *frame, a []value) value {
+			rv := m.settable(a[0], "SetUint", 7, 8, 9, 10, 11, 12)
+			w := basicWidth(rv.t.Underlying().(*types.Basic))
+			store(rv.addr, tExtract(w-1, 0, m.asTerm(a[1])))
+			return nil
+		},
+		"(reflect.Value).SetFloat": func(m *Machine, c *frame, a []value) value {
+			rv := m.settable(a[0], "SetFloat", 13, 14)
+			t := m.asTerm(a[1])
+			if reflKind(rv.t) == 13 {
+				t = m.f64to32(t)
+			}
+			store(rv.addr, t)
+			return nil
+		},
+		"(reflect.Value).SetString": func(m *Machine, c *frame, a []value) value {
+			rv := m.settable(a[0], "SetString", 24)
+			store(rv.addr, a[1])
+			return nil
+		},
+		"(reflect.Value).Set": func(m *Machine, c *frame, a []value) value {
+			rv := m.asReflVal(a[0])
+			x := m.asReflVal(a[1])
+			if !rv.canSet || rv.addr == nil {
+				m.reflPanic("reflect.Value.Set using unaddressable value")
+			}
+			if x.t == nil {
+				m.reflPanic("reflect.Set: value of type nil is not assignable")
+			}
+			xv := x.get()
+			if _, isI := rv.t.Underlying().(*types.Interface); isI {
+				if _, srcI := x.t.Underlying().(*types.Interface); !srcI {
+					if !types.AssignableTo(x.t, rv.t) {
+						m.reflPanic(fmt.Sprintf("reflect.Set: value of type %s is not assignable to type %s", x.t, rv.t))
+					}
+					xv = ifaceV{t: x.t, v: copyVal(xv)}
+				}
+			} else if !types.AssignableTo(x.t, rv.t) && !types.Identical(x.t.Underlying(), rv.t.Underlying()) {
+				m.reflPanic(fmt.Sprintf("reflect.Set: value of type %s is not assignable to type %s", x.t, rv.t))
+			}
+			store(rv.addr, xv)
+			return nil
+		},
+		"(reflect.Value).Len": func(m *Machine, c *frame, a []value) value {
+			rv := m.asReflVal(a[0])
+			switch v := rv.get().(type) {
+			case []value:
+				return intTerm(len(v))
+			case strV:
+				return intTerm(v.Len())
+			case arrayV:
+				return intTerm(len(v))
+			case *mapV:
+				if v == nil {
+					return intTerm(0)
+				}
+				return intTerm(len(v.ents))
+			case *chanV:
+				return intTerm(len(v.buf))
+			}
+			m.reflPanic("call of reflect.Value.Len on " + typeStr(rv.t) + " Value")
+			return nil
+		},
+		"(reflect.Value).Cap": func(m *Machine, c *frame, a []value) value {
+			rv := m.asReflVal(a[0])
+			switch v := rv.get().(type) {
+			case []value:
+				return intTerm(cap(v))
+			case arrayV:
+				return intTerm(len(v))
+			}
+			m.reflPanic("call of reflect.Value.Cap on " + typeStr(rv.t) + " Value")
+			return nil
+		},
+		"(reflect.Value).SetLen": func(m *Machine, c *frame, a []value) value {
+			rv := m.settable(a[0], "SetLen", 23)
+			s, _ := load(rv.addr).([]value)
+			n := m.asTerm(a[1])
+			if !n.IsConst() {
+				m.abort("SetLen with symbolic length")
+			}
+			k := int(n.SVal())
+			if k < 0 || k > cap(s) {
+				m.reflPanic("reflect: slice length out of range in SetLen")
+			}
+			store(rv.addr, s[:k])
+			return nil
+		},
+		"(reflect.Value).Index": func(m *Machine, c *frame, a []value) value {
+			rv := m.asReflVal(a[0])
+			idx := m.asTerm(a[1])
+			switch v := rv.get().(type) {
+			case []value:
+				i := m.reflIndex(idx, len(v))
+				return reflVal{t: rv.t.Underlying().(*types.Slice).Elem(), addr: &v[i], canSet: true}
+			case arrayV:
+				i := m.reflIndex(idx, len(v))
+				et := rv.t.Underlying().(*types.Array).Elem()
+				if rv.addr != nil {
+					arr := (*rv.addr).(arrayV)
+					return reflVal{t: et, addr: &arr[i], canSet: rv.canSet}
+				}
+				return reflVal{t: et, v: v[i]}
+			case strV:
+				i := m.reflIndex(idx, v.Len())
+				return reflVal{t: types.Typ[types.Uint8], v: v.At(i)}
+			}
+			m.reflPanic("call of reflect.Value.Index on " + typeStr(rv.t) + " Value")
+			return nil
+		},
+		"(reflect.Value).NumField": func(m *Machine, c *frame, a []value) value {
+			rv := m.asReflVal(a[0])
+			st, ok := underlyingOf(rv.t).(*types.Struct)
+			if !ok {
+				m.reflPanic("call of reflect.Value.NumField on " + typeStr(rv.t) + " Value")
+			}
+			return intTerm(st.NumFields())
+		},
+		"(reflect.Value).Field": func(m *Machine, c *frame, a []value) value {
+			rv := m.asReflVal(a[0])
+			st, ok := underlyingOf(rv.t).(*types.Struct)
+			if !ok {
+				m.reflPanic("call of reflect.Value.Field on " + typeStr(rv.t) + " Value")
+			}
+			idx := m.asTerm(a[1])
+			if !idx.IsConst() {
+				m.abort("Field with symbolic index")
+			}
+			i := int(idx.SVal())
+			if i < 0 || i >= st.NumFields() {
+				m.reflPanic("reflect: Field index out of range")
+			}
+			f := st.Field(i)
+			if rv.addr != nil {
+				s := (*rv.addr).(structV)
+				return reflVal{t: f.Type(), addr: &s[i], canSet: rv.canSet && f.Exported()}
+			}
+			return reflVal{t: f.Type(), v: rv.v.(structV)[i]}
+		},
+		"(reflect.Value).MapKeys": func(m *Machine, c *frame, a []value) value {
+			rv := m.asReflVal(a[0])
+			mp, ok := rv.get().(*mapV)
+			if !ok {
+				m.reflPanic("call of reflect.Value.MapKeys on " + typeStr(rv.t) + " Value")
+			}
+			kt := rv.t.Underlying().(*types.Map).Key()
+			out := []value{}
+			if mp != nil {
+				for _, e := range mp.ents {
+					out = append(out, reflVal{t: kt, v: copyVal(e.k)})
+				}
+			}
+			return out
+		},
+		"(reflect.Value).MapIndex": func(m *Machine, c *frame, a []value) value {
+			rv := m.asReflVal(a[0])
+			mp, ok := rv.get().(*mapV)
+			if !ok {
+				m.reflPanic("call of reflect.Value.MapIndex on " + typeStr(rv.t) + " Value")
+			}
+			k := m.asReflVal(a[1])
+			if mp == nil {
+				return reflVal{}
+			}
+			if e := m.mapFind(mp, m.reflAssign(k, mp.keyT)); e != nil {
+				return reflVal{t: rv.t.Underlying().(*types.Map).Elem(), v: copyVal(e.v)}
+			}
+			return reflVal{}
+		},
+		"(reflect.Value).SetMapIndex": func(m *Machine, c *frame, a []value) value {
+			rv := m.asReflVal(a[0])
+			mp, ok := rv.get().(*mapV)
+			if !ok {
+				m.reflPanic("call of reflect.Value.SetMapIndex on " + typeStr(rv.t) + " Value")
+			}
+			if mp == nil {
+				m.targetPanic("assignment to entry in nil map")
+			}
+			k := m.asReflVal(a[1])
+			e := m.asReflVal(a[2])
+			kt := rv.t.Underlying().(*types.Map).Key()
+			et := rv.t.Underlying().(*types.Map).Elem()
+			if k.t == nil || !(types.AssignableTo(k.t, kt)) {
+				m.reflPanic(fmt.Sprintf("reflect.Value.SetMapIndex: value of type %s is not assignable to type %s", typeStr(k.t), kt))
+			}
+			if e.t == nil {
+				m.mapDelete(mp, m.reflAssign(k, kt))
+				return nil
+			}
+			if !types.AssignableTo(e.t, et) {
+				m.reflPanic(fmt.Sprintf("reflect.Value.SetMapIndex: value of type %s is not assignable to type %s", e.t, et))
+			}
+			m.mapInsert(mp, m.reflAssign(k, kt), copyVal(m.reflAssign(e, et)))
+			return nil
+		},
+		"(reflect.Value).Pointer": func(m *Machine, c *frame, a []value) value {
+			return mkConst(64, 0xdead0000)
+		},
+		"(reflect.Value).Convert": func(m *Machine, c *frame, a []value) value {
+			rv := m.asReflVal(a[0])
+			t := m.asReflType(a[1])
+			return reflVal{t: t, v: m.conv(t, rv.t, rv.get())}
+		},
+	}
+}
+
+func typeStr(t types.Type) string {
+	if t == nil {
+		return "zero"
+	}
+	return t.String()
+}
+
+func underlyingOf(t types.Type) types.Type {
+	if t == nil {
+		return nil
+	}
+	return t.Underlying()
+}
+
+// reflAssign converts the held value to how it is stored in a slot of type dst (boxing into interfaces).
+func (m *Machine) reflAssign(rv reflVal, dst types.Type) value {
+	v := rv.get()
+	if _, isI := dst.Underlying().(*types.Interface); isI {
+		if _, srcI := rv.t.Underlying().(*types.Interface); !srcI {
+			return ifaceV{t: rv.t, v: copyVal(v)}
+		}
+	}
+	return v
+}
+
+func (m *Machine) reflIndex(idx *Term, n int) int {
+	if !idx.IsConst() {
+		m.abort("reflect Index with symbolic index")
+	}
+	i := int(idx.SVal())
+	if i < 0 || i >= n {
+		m.reflPanic("reflect: slice index out of range")
+	}
+	return i
+}
+
+func (m *Machine) wantKind(rv reflVal, meth string, ks ...uint64) {
+	if rv.t == nil {
+		m.reflPanic("call of reflect.Value." + meth + " on zero Value")
+	}
+	if !kindIs(reflKind(rv.t), ks...) {
+		m.reflPanic("call of reflect.Value." + meth + " on " + rv.t.String() + " Value")
+	}
+}
+
+func (m *Machine) settable(v value, meth string, ks ...uint64) reflVal {
+	rv := m.asReflVal(v)
+	if rv.t == nil {
+		m.reflPanic("call of reflect.Value." + meth + " on zero Value")
+	}
+	if !rv.canSet || rv.addr == nil {
+		m.reflPanic("reflect.Value." + meth + " using unaddressable value")
+	}
+	if !kindIs(reflKind(rv.t), ks...) {
+		m.reflPanic("call of reflect.Value." + meth + " on " + rv.t.String() + " Value")
+	}
+	return rv
+}
+
+func (m *Machine) f64to32(t *Term) *Term {
+	if t.W == 32 {
+		return t
+	}
+	if t.IsConst() {
+		return mkConst(32, f32bits(float32(f64frombits(t.C))))
+	}
+	if t.Op == "f32to64" {
+		// exact for every non-NaN value (harnesses assume non-NaN floats)
+		return t.Args[0]
+	}
+	m.abort("float64->float32 conversion of a symbolic value is not encoded")
+	return nil
+}
+
+func reflElem(m *Machine, rv reflVal) value {
+	if rv.t == nil {
+		m.reflPanic("call of reflect.Value.Elem on zero Value")
+	}
+	switch u := rv.t.Underlying().(type) {
+	case *types.Pointer:
+		p, _ := rv.get().(*value)
+		if p == nil {
+			return reflVal{}
+		}
+		return reflVal{t: u.Elem(), addr: p, canSet: true}
+	case *types.Interface:
+		iv, _ := rv.get().(ifaceV)
+		if iv.t == nil {
+			return reflVal{}
+		}
+		return reflVal{t: iv.t, v: iv.v}
+	}
+	m.reflPanic("call of reflect.Value.Elem on " + rv.t.String() + " Value")
+	return nil
+}
+
+// ---- reflect.Type methods (invoked through the Type interface) ----
+
 func reflTypeMethod(name string) value {
 	return &nativeFn{name: "reflect.Type." + name, fn: func(m *Machine, args []value) value {
-		m.abort("reflect.Type.%s not implemented", name)
+		t := args[0].(reflType).t
+		switch name {
+		case "Kind":
+			return mkConst(64, reflKind(t))
+		case "Elem":
+			switch u := t.Underlying().(type) {
+			case *types.Pointer:
+				return m.rtypeIface(u.Elem())
+			case *types.Slice:
+				return m.rtypeIface(u.Elem())
+			case *types.Array:
+				return m.rtypeIface(u.Elem())
+			case *types.Map:
+				return m.rtypeIface(u.Elem())
+			case *types.Chan:
+				return m.rtypeIface(u.Elem())
+			}
+			m.reflPanic("Elem of invalid type " + t.String())
+		case "Key":
+			if u, ok := t.Underlying().(*types.Map); ok {
+				return m.rtypeIface(u.Key())
+			}
+			m.reflPanic("Key of non-map type " + t.String())
+		case "Name":
+			switch n := t.(type) {
+			case *types.Named:
+				return mkStr(n.Obj().Name())
+			case *types.Basic:
+				return mkStr(n.Name())
+			case *types.Alias:
+				return mkStr(n.Obj().Name())
+			}
+			return mkStr("")
+		case "PkgPath":
+			if n, ok := t.(*types.Named); ok && n.Obj().Pkg() != nil {
+				return mkStr(n.Obj().Pkg().Path())
+			}
+			return mkStr("")
+		case "String":
+			return mkStr(types.TypeString(t, func(p *types.Package) string { return p.Name() }))
+		case "Size":
+			return mkConst(64, uint64(m.sizeof(t)))
+		case "NumField":
+			if st, ok := t.Underlying().(*types.Struct); ok {
+				return intTerm(st.NumFields())
+			}
+			m.reflPanic("NumField of non-struct type " + t.String())
+		case "Len":
+			if at, ok := t.Underlying().(*types.Array); ok {
+				return intTerm(int(at.Len()))
+			}
+			m.reflPanic("Len of non-array type " + t.String())
+		case "Field":
+			st, ok := t.Underlying().(*types.Struct)
+			if !ok {
+				m.reflPanic("Field of non-struct type " + t.String())
+			}
+			idx := m.asTerm(args[1])
+			if !idx.IsConst() {
+				m.abort("Type.Field with symbolic index")
+			}
+			i := int(idx.SVal())
+			if i < 0 || i >= st.NumFields() {
+				m.reflPanic("reflect: Field index out of bounds")
+			}
+			f := st.Field(i)
+			pkgPath := ""
+			if !f.Exported() && f.Pkg() != nil {
+				pkgPath = f.Pkg().Path()
+			}
+			// reflect.StructField{Name, PkgPath, Type, Tag, Offset, Index, Anonymous}
+			return structV{mkStr(f.Name()), mkStr(pkgPath), m.rtypeIface(f.Type()), mkStr(st.Tag(i)),
+				mkConst(64, 0), []value{intTerm(i)}, mkBool(f.Embedded())}
+		case "Comparable":
+			return mkBool(types.Comparable(t))
+		case "NumMethod":
+			return intTerm(m.prog.MethodSets.MethodSet(t).Len())
+		case "AssignableTo":
+			return mkBool(types.AssignableTo(t, m.asReflType(args[1])))
+		case "ConvertibleTo":
+			return mkBool(types.ConvertibleTo(t, m.asReflType(args[1])))
+		case "Implements":
+			it, ok := m.asReflType(args[1]).Underlying().(*types.Interface)
+			if !ok {
+				m.reflPanic("non-interface type passed to Type.Implements")
+			}
+			return mkBool(types.Implements(t, it))
+		}
+		m.abort("reflect.Type.%s not modelled", name)
 		return nil
 	}}
 }
+
+func (m *Machine) deepEqual(x, y value) value {
+	switch xv := x.(type) {
+	case ifaceV:
+		yv, ok := y.(ifaceV)
+		if !ok {
+			return tFalse
+		}
+		if xv.t == nil || yv.t == nil {
+			return mkBool(xv.t == nil && yv.t == nil)
+		}
+		if !types.Identical(xv.t, yv.t) {
+			return tFalse
+		}
+		return m.deepEqualT(xv.t, xv.v, yv.v)
+	}
+	m.abort("reflect.DeepEqual on %T", x)
+	return nil
+}
+
+func (m *Machine) deepEqualT(t types.Type, x, y value) *Term {
+	switch u := t.Underlying().(type) {
+	case *types.Slice:
+		xs, _ := x.([]value)
+		ys, _ := y.([]value)
+		if (xs == nil) != (ys == nil) || len(xs) != len(ys) {
+			return tFalse
+		}
+		r := tTrue
+		for i := range xs {
+			r = tAnd(r, m.deepEqualT(u.Elem(), xs[i], ys[i]))
+		}
+		return r
+	case *types.Struct:
+		xs, ys := x.(structV), y.(structV)
+		r := tTrue
+		for i := range xs {
+			r = tAnd(r, m.deepEqualT(u.Field(i).Type(), xs[i], ys[i]))
+		}
+		return r
+	case *types.Pointer:
+		xp, yp := x.(*value), y.(*value)
+		if xp == yp {
+			return tTrue
+		}
+		if xp == nil || yp == nil {
+			return tFalse
+		}
+		return m.deepEqualT(u.Elem(), *xp, *yp)
+	case *types.Interface:
+		return m.asTerm(m.deepEqual(x, y))
+	case *types.Map:
+		m.abort("DeepEqual on maps not modelled")
+	}
+	return m.equalsT(t, x, y)
+}
+
+var _ = strings.ToLower
